@@ -9,9 +9,9 @@ def vf_jobs(tier):
         witnesses=['data read','seek failed','seek ok','page found','end of data'],models=ENV,tags=['C03','C10','C12'],
         functions=['_get_data','_seek_helper','_get_next_page'],bounds='<=4 framing/read events per call; offsets < 2^31; any read sizes 0..2048, any errno, seek may fail'))
     nl=2 if q else 3
-    J.append(Job('F-fetch','vf/f_fetch.c',defs=['-DENV_BUDGET=%d'%(4 if q else 6),'-DNL=%d'%nl],cuts={'vorbisfile.c':['_get_next_page','_fetch_headers']},unwind=(4 if q else 6)+3,unwindset=[('env_fill_page',None,28)],object_bits=12,
+    J.append(Job('F-fetch','vf/f_fetch.c',defs=['-DENV_BUDGET=%d'%(4 if q else 4),'-DNL=%d'%nl],cuts={'vorbisfile.c':['_get_next_page','_fetch_headers']},unwind=4+3,unwindset=[('env_fill_page',None,28)],object_bits=12,
         witnesses=['link changed','position set from a granule position','packet processed','streaming handle'],models=ENV,tags=['C03','C07','C09'],
-        functions=['_fetch_and_process_packet','_make_decode_ready','_decode_clear'],bounds='<=%d links, <=%d framing events per call; arbitrary V_vf state'%(nl,4 if q else 6),weight=3,mem_est=(3 if q else 10)))
+        functions=['_fetch_and_process_packet','_make_decode_ready','_decode_clear'],bounds='<=%d links, <=%d framing events per call; arbitrary V_vf state'%(nl,4),weight=3,mem_est=(3 if q else 10)))
     J.append(Job('F-halfrate','vf/f_halfrate.c',defs=['-DNL=3'],cuts={'vorbisfile.c':['ov_pcm_seek']},unwind=5,object_bits=12,
         witnesses=['refused','accepted','re-seek'],models=ENV,tags=['C20','C03'],functions=['ov_halfrate','ov_halfrate_p'],bounds='<=3 links, any subset refusing, any prior state'))
     J.append(Job('F-crosslap','vf/f_crosslap.c',cuts={'vorbisfile.c':['_ov_initset','_ov_initprime','_ov_getlap','_ov_splice']},unwind=5,object_bits=12,
@@ -23,9 +23,9 @@ def vf_jobs(tier):
     J.append(Job('pcm-exact','vf/pcm_seek.c',defs=['-DNPK=%d'%(3 if q else 5),'-DENV_BUDGET=3'],cuts={'vorbisfile.c':['ov_pcm_seek_page','_get_next_page','_fetch_and_process_packet']},unwind=(3 if q else 5)+4,object_bits=12,
         witnesses=['packets discarded in the second link','samples discarded up to the target','seek failed'],models=ENV+['contract of ov_pcm_seek_page (page-bisect)'],tags=['C08','C07','C03','C20'],
         functions=['ov_pcm_seek','_make_decode_ready'],bounds='2 links, <=%d queued packets without granule positions, <=3 further packets fetched, block sizes 64..8192 per link'%(3 if q else 5),weight=3))
-    for kl in ([2] if q else [2,3]):
-        J.append(Job('chain-table-%d'%kl,'vf/chain_table.c',defs=['-DKL=%d'%kl,'-DFETCHES=%d'%(10 if kl==2 else 16)],cuts={'vorbisfile.c':['_seek_helper','_get_next_page','_get_prev_page_serial','_fetch_headers','_initial_pcmoffset','ov_raw_seek']},
-            unwind=(12 if kl==2 else 18),object_bits=12,witnesses=['chain opened','serial number with the top bit set'],models=ENV+['abstract chained file (M-frame(c))'],tags=['C09','C03','C13'],checks=[],
+    for kl in ([2] if q else [2]):   # 3 links: no verdict in 3600 s / 14 GB (measured)
+        J.append(Job('chain-table-%d'%kl,'vf/chain_table.c',defs=['-DKL=%d'%kl,'-DFETCHES=%d'%(10 if q else 12)],cuts={'vorbisfile.c':['_seek_helper','_get_next_page','_get_prev_page_serial','_fetch_headers','_initial_pcmoffset','ov_raw_seek']},
+            unwind=(12 if q else 14),object_bits=12,witnesses=['chain opened','serial number with the top bit set'],models=ENV+['abstract chained file (M-frame(c))'],tags=['C09','C03','C13'],checks=[],
             functions=['_open_seekable2','_bisect_forward_serialno','ov_pcm_total'],bounds='%d links of 200..40000 bytes, <=%d page fetches, non-multiplexed chain'%(kl,10 if kl==2 else 16),weight=4,flags=['--depth','100000'] if False else []))
     J.append(Job('raw-seek','vf/raw_seek.c',defs=['-DNPK=%d'%(3 if q else 4)],cuts={'vorbisfile.c':['_seek_helper','_get_next_page']},unwind=(3 if q else 4)*2+6,object_bits=12,
         witnesses=['not seekable','out of range','seek failed','last page, not first','first page is also the last','ordinary page'],models=ENV+['abstract single-page source, two ghost stream queues'],tags=['C07','C10','C03','C12'],
